@@ -57,6 +57,8 @@ TMade == /\ IsEvent("made") /\ l = 1
          /\ c' = New(cfg', E.now) /\ Matches(c', E.obs)
 
 TOpened == IsEvent("open") /\ TStep(Opened(cfg, c, now))
+\* an explicit HTTP proxy has answered the client's CONNECT: still connecting, the opening-handshake deadline runs on unchanged
+TProxied == IsEvent("proxied") /\ TStep(c)
 TLClose == /\ IsEvent("lclose") /\ TStep(LocalClose(cfg, c, now))
            /\ c'.nclose > c.nclose => CfCode = E.code          \* the application's code (0 = none) goes out unchanged
 TLSend  == IsEvent("lsend") /\ LET r == LocalSend(cfg, c, E.api) IN TStep(r.c) /\ E.exc = r.exc
@@ -83,7 +85,7 @@ TAdv    == /\ IsEvent("adv")
 
 \* the layer above fails the connection itself (as the WAMP transports do): same as a peer violation, whatever its reason text
 TLFail == /\ IsEvent("lfail") /\ TStep(PeerViolation(cfg, c, now))
-TNext == TPCloseData \/ TLFail \/ TMade \/ TOpened \/ TLClose \/ TLBurst \/ TLSend \/ TPClose \/ TPData \/ TPPing \/ TPPong \/ TPViol \/ TLost \/ TAdv
+TNext == TProxied \/ TPCloseData \/ TLFail \/ TMade \/ TOpened \/ TLClose \/ TLBurst \/ TLSend \/ TPClose \/ TPData \/ TPPing \/ TPPong \/ TPViol \/ TLost \/ TAdv
 TraceSpec == TInit /\ [][TNext]_tvars
 
 Progress == TLCSet(tid, IF TLCGet(tid) < l THEN l ELSE TLCGet(tid))
